@@ -224,14 +224,20 @@ def gen_tls(ctx):
                 cases[-1].twin.tag = 'twin'
     # failed handshakes: garbage, close, silence; then clear text again
     for hn in ('ehlo', 'ehlo-tx-rset', 'ehlo-msg'):
-        for h in ('g', 'c', 't'):
+        for h in ('g', 'c', 't', 'a'):
             for after in ([NOOP, MAIL, QUIT], [STLS], [EHLO, STLS]):
-                if (quick and rng.random() < 0.5) or (h == 't' and rng.random() < 0.6):
+                if (quick and h != 'a' and rng.random() < 0.5) or (h == 't' and rng.random() < 0.6):
                     continue
                 clear = [WT] + lock(HISTORIES[hn] + [STLS])
                 hs = [h]
                 if h == 'g':
                     clear += lock([NOTTLS] + after)
+                    if STLS in after:
+                        hs.append('o')
+                if h == 'a':
+                    # a handshake that was begun for real and given up with a close_notify alert (seeded change c17-m8:
+                    # the alert was reported as end-of-file, which the accept wrapper took for success)
+                    clear += [WT] + lock(after)
                     if STLS in after:
                         hs.append('o')
                 add(Case('tls', clear=clear, hs=hs, tls=lock([EHLO, MAIL, QUIT]), clean=False), 'handshake-%s' % h)
